@@ -240,8 +240,13 @@ def enumerate_upto(n):
     return [e for s in range(1, n + 1) for e in by[s]]
 
 
+BIG = [2 ** 53, 2 ** 53 + 1, 2 ** 53 + 2, 1700000000000000001, 2 ** 64 + 1, 10 ** 18 + 7]
+
+
 def rand_expr(rng, depth, in_exp=False):
     if depth <= 0 or rng.random() < 0.18:
+        if rng.random() < 0.06 and not in_exp:
+            return ("const", rng.choice(BIG))
         return rng.choice([("var", rng.choice(VARS)), ("const", rng.choice(CONSTS))])
     r = rng.random()
     if r < 0.55:
@@ -342,6 +347,8 @@ def mutations(rng, e):
         k = sub[0]
         if k == "const":
             out.append(("const", replace(e, path, ("const", sub[1] + 1 + rng.randint(0, 2))), None))
+            if sub[1] >= 2 ** 40:
+                out.append(("const", replace(e, path, ("const", sub[1] + 1)), None))
         elif k == "var":
             other = rng.choice([v for v in VARS if v != sub[1]])
             out.append(("var", replace(e, path, ("var", other)), None))
